@@ -658,6 +658,25 @@ def check_C04(tier, nproc=None):
     if tier != 'quick':
         S6 += [[(1, 'digit19'), b'9' * 790, (12, D)], [b'0.000', (1, 'digit19'), b'3' * 795, (6, D), b'E+20'], [b'7' * 799, (1, D), b'.', (1, D), b'1e-799'],
                [(6, D), b'.', (6, D), b'e42'], [b'-0.', (8, D), b'e-11'], [b'9' * 805, b'e-', b'512']]
+    # tier 5e: floatBits for real over an abstract decimal (Shift and RoundedInteger by contract, engine/gosym/absdec.py):
+    # scaling loops, power table, exponent bookkeeping, subnormal adjustment, rounding carry, overflow, bit assembly
+    N19 = (1, 'digit19')
+    S7 = [[N19, (2, D)], [N19, (19, D)], [b'-', N19, b'.', (20, D), b'e-320'], [N19, b'.', (6, D), b'e-308'], [N19, (17, D), b'e291'],
+          [b'900719925474099', (3, D)], [b'0.000', N19, (21, D), b'E+15'], [b'1.9999999999999999', (4, D)], [N19, b'.', (3, D), b'e-324'],
+          [b'-', N19, (3, D), b'e-326'], [N19, b'.', (5, D), b'e308'], [N19, (2, D), b'e22'], [b'0.', N19, (18, D)], [b'0.0e5'], [b'-0']]
+    if tier != 'quick':
+        S7 += [[N19, (24, D), b'e-30'], [b'-', N19, b'.', (22, D), b'e-310'], [N19, (19, D), b'e289'], [b'2.22507385850720', (5, D), b'e-308'], [b'4.9', (4, D), b'e-324'],
+               [b'1.797693134862315', (5, D), b'e308'], [N19, (15, D), b'.', (8, D)], [b'8.98846567431158', (4, D), b'e307'], [N19, b'e-', b'300'], [N19, (9, D), b'E+', b'150'],
+               [b'0.', b'0' * 30, N19, (12, D)], [N19, (30, D)]]
+    for t in S7:
+        c.add(Job('vH_FP_absbits', [('tmpl', 'd', t)], pkg=FP, weight=2500, opts={'absdec': True, 'nsamples': 2}))
+    # tier 5d: RoundedInteger / shouldRoundUp: nearest integer, ties to even, truncated decimals round up at a tie
+    for nd in ((1, 2, 3) if tier == 'quick' else (1, 2, 3, 4, 5)):
+        for dp in range(0, nd + 3):
+            for tr in (False, True):
+                if tr and dp >= nd:
+                    continue
+                c.add(Job('vH_FP_round', [('int', nd), ('int', dp), ('bool', tr)], pkg=FP, weight=100, opts={'scanvalue': True, 'nsamples': 1}))
     for t in S6:
         c.add(Job('vH_FP_set', [('tmpl', 'd', t)], pkg=FP, weight=400, opts={'scanvalue': True, 'nsamples': 2, 'ex.ite_merging': False}))
     c.bounds = {'scanner_all_strings': N, 'scanner_templates': [_tmplstr(t) for t in T],
@@ -666,14 +685,16 @@ def check_C04(tier, nproc=None):
                 'right_shift_unit': 'rightShift(a, k) for k in %s on every normalised decimal of %s digits (k > 12: one digit)' % (rks, rnds),
                 'fallback_early_exit_templates': [_tmplstr(t) for t in S5],
                 'decimal_set_templates': [_tmplstr(t) for t in S6],
+                'floatbits_abstract_decimal_templates': [_tmplstr(t) for t in S7],
+                'rounded_integer_unit': 'RoundedInteger on every normalised decimal of 1..%d digits, decimal point 0..nd+2, truncation flag both ways (truncated only with a fractional last digit)' % (3 if tier == 'quick' else 5),
                 'exact_path': 'atof64exact for every decimal exponent -26..41, both signs, every 64-bit mantissa',
                 'eisel_lemire': 'every one of the 696 table rows x every 64-bit mantissa with 0 leading zeros; leading-zero counts %s on %s rows; negative sign on the same rows' % (extra_clz, 'every 58th' if tier == 'quick' else 'all')}
-    c.must_reach = ['C04.scan-returned', 'C04.scan-ok', 'C04.el-returned', 'C04.el-ok', 'C04.exact-returned', 'C04.exact-ok', 'C04.glue-returned', 'C04.glue-ok', 'C04.api-number', 'C04.shift-done', 'C04.slow-returned', 'C04.set-returned']
+    c.must_reach = ['C04.scan-returned', 'C04.scan-ok', 'C04.el-returned', 'C04.el-ok', 'C04.exact-returned', 'C04.exact-ok', 'C04.glue-returned', 'C04.glue-ok', 'C04.api-number', 'C04.shift-done', 'C04.slow-returned', 'C04.set-returned', 'C04.round-done', 'C04.absbits-returned', 'C04.absbits-finite']
     _std(c, ['R-ROUND (engine/gosym/fpspec.py): nearest binary64 with ties to even, as linear integer inequalities per exponent field; validated natively with math/big in replays',
              'math/bits.Mul64 and LeadingZeros64 are exact term-level intrinsics',
              'tier 4: eiselLemire64 replaced by its contract (free ok; when ok the result is rnd(man*10^exp), tier 3); atof64exact runs for real in the exact-rational model; f2 == fUp implies every value between the two bounds rounds to f2 (monotonicity of rounding, meta-argument)',
              'tier 2: each IEEE-754 operation on exactly known operands returns rnd(exact result) (the standard\'s definition); comparisons with constants are translated to the un-rounded value by rounding midpoints; an intermediate is taken as exact only when the solver proves it is an integer <= 2^53 on the path, otherwise the double rounding is decided with R-ROUND'])
-    c.outside = ['of the multi-precision fallback these units are established: leftShift (operands up to %d digits, every shift count of the tier), rightShift (shift counts %s, up to %d digits), and decimal.set + floatBits run for real on the literals floatBits settles before shifting (exponent beyond +310 / below -330, zero digit strings). The floatBits scaling loops, RoundedInteger and their composition are not: with two or more symbolic digits the rounding obligation on the composed shifts is not decided within the job deadline' % (nds[-1], '%d..%d' % (rks[0], rks[-1]), rnds[-1]),
+    c.outside = ['of the multi-precision fallback: the units leftShift (operands up to %d digits, every shift count of the tier), rightShift (shift counts %s, up to %d digits), RoundedInteger (up to %d digits) and decimal.set (templates, across the 800-digit buffer) are established on their own, and floatBits is run for real over an abstract decimal whose Shift / RoundedInteger follow those contracts (tier 5e templates). NOT established: the units on operands longer than stated (so the composition rests on "the unit contracts hold for every operand length"), and the interplay of truncation beyond 800 digits with rounding (an abstract decimal is exact)' % (nds[-1], '%d..%d' % (rks[0], rks[-1]), rnds[-1], 3 if tier == 'quick' else 5),
                  'tier 4 uses the CONTRACT of the multi-precision fallback (returns the correctly rounded literal, overflow flag exact) as an assumption; literals with symbolic exponent digits are outside the glue templates',
                  'the multi-precision decimal fallback (decimal.set, floatBits, shifts): literals with more than 19 significant digits whose bounds disagree, exact halfway cases, exponents beyond +-347, subnormal and overflowing magnitudes are NOT established end to end',
                  'literals longer than the scanner bounds']
